@@ -95,6 +95,9 @@ def run(tier: str, seed: int) -> int:
     cases = chk.generate("Gen_C19")
     obs = drive("harness.props.c19", "drive_case", cases, chunk=40)
     verdicts = chk.judge("Judge_C19", obs)
+    from .. import corrupt as _corrupt
+
+    chk.binding_selftest("Judge_C19", obs, verdicts, _corrupt.c19)
 
     def pretty(o):
         return {"rules": [rule_dict(r, i + 1) | {"file": f"dir{r['dir']}/file{r['fname']}.yml"} for i, r in enumerate(o["coll"])], "validators": o["V"], "exclusions": o["excl"], "first_run": o["runs"][0]}
